@@ -34,26 +34,26 @@ type Ctx struct {
 	Deadline time.Time
 	Workers  int
 
-	mu         sync.Mutex
-	Cov        map[string]any
-	Assume     []string
-	samples    []any
-	distinct   map[[16]byte]struct{}
-	nontrivial int64
+	mu          sync.Mutex
+	Cov         map[string]any
+	Assume      []string
+	samples     []any
+	distinct    map[[16]byte]struct{}
+	nontrivial  int64
 	extDistinct int64
-	outcomes   map[string]int64
-	known      []Finding
-	knownHit   map[string]int64
-	knownWhat  map[string]string
-	violations []violation
-	vioSigs    map[string]int
-	Exhaustive bool
-	notes      []string
-	Evals      int64
-	States     int64
-	Trans      int64
-	Validated  int64
-	ReplayFile string // when non-empty the run is a replay of that file
+	outcomes    map[string]int64
+	known       []Finding
+	knownHit    map[string]int64
+	knownWhat   map[string]string
+	violations  []violation
+	vioSigs     map[string]int
+	Exhaustive  bool
+	notes       []string
+	Evals       int64
+	States      int64
+	Trans       int64
+	Validated   int64
+	ReplayFile  string // when non-empty the run is a replay of that file
 }
 
 type violation struct {
